@@ -53,6 +53,49 @@ def idxOf (a : List String) (s : String) : Nat := a.findIdx (· == s)
 
 def showProblems (l : List String) : String := "; ".intercalate (l.take 3)
 
+/-- pre-order of `t` (root, neighbour, …) → pre-order of `rootAtNeighbour t` (neighbour, …, old root) -/
+def fwdOrder {α : Type} (l : List α) : List α := l.drop 1 ++ l.take 1
+
+/-- repaired finding ParsimonyRootIsTip (fix 2ef38ab): no class any more, the pattern is only named in the detail -/
+def rootTipClass : String := "(pattern of the repaired finding ParsimonyRootIsTip: root treated as a leaf, steps 0, every other node `*`)"
+
+/-- ACR on a tree rooted at a TIP (one neighbour, which is an inner node).  For the property this is the same tree as
+    `rootAtNeighbour t` (the root is one of its tips): the oracle is evaluated there.  The known wrong answer of the code
+    (finding ParsimonyRootIsTip) is recognised by its pattern only. -/
+def acrTipRooted (t : T) (m : List (String × String)) (algo : Algo) (outcome stepsS dumpAfter : String)
+    (tags0 : List String) (model : Option AcrOut) : Verdict :=
+  let tags0 := "root-is-tip" :: tags0
+  let missingAll := !(t.tipNames.all fun n => (lookup m n).isSome)
+  if outcome == "err" then
+    if missingAll then ⟨.pass, "err" :: tags0, ""⟩
+    else ⟨.oracle, "err" :: tags0, "error although every tip (the root included) has a state"⟩
+  else
+  match stepsS.toNat?, T.undump dumpAfter with
+  | some steps, some ta =>
+    let isets : List (List String) := (nodeComments ta).map fun c => splitSet "|" (c.headD "")
+    let silentZero := steps == 0 && (isets.drop 1).all (· == ["*"]) && isets.length ≥ 2
+    if missingAll then
+      ⟨.oracle, tags0, (if silentZero then rootTipClass ++ " — " else "") ++ "a tip without state was accepted"⟩ else
+    let t' := rootAtNeighbour t
+    let alpha := dedup ((leavesL t'.kids).filterMap (lookup m))
+    let k := alpha.length
+    let tv : String → Vec := fun n => match lookup m n with
+      | some st => tab k fun i => if i = idxOf alpha st then 1 else 0
+      | none => vzero k
+    let rep : Report := ⟨steps, fwdOrder (isets.map fun s => s.map (idxOf alpha))⟩
+    let tags := tags0 ++ ["states-" ++ toString k] ++ tagIf (tipsOk k tv t') "hyp-tipsOk" ++ tagIf (rootOk t') "hyp-rootOk" ++
+      tagIf (minCost k tv t' ≥ 2) "nontrivial"
+    let probs := reportProblems k tv t' (algo == .downpass) (algo != .none) true rep
+    if !probs.isEmpty then
+      ⟨.oracle, tags, (if silentZero then rootTipClass ++ " — " else "") ++ showProblems probs⟩
+    else match model with
+      | none => ⟨.tie, tags, "model rejects"⟩
+      | some mo =>
+        if mo.steps != steps then ⟨.tie, tags, "model steps " ++ toString mo.steps⟩
+        else if mo.sets.map sortStrings != isets then ⟨.tie, tags, "model sets differ"⟩
+        else ⟨.pass, tags, ""⟩
+  | _, _ => bad "C12.acr outputs"
+
 /-- ACR.  fields: dump, map keys, map values, algo | outcome, steps, dump after, out-map keys, out-map values, steps on re-rooted copies -/
 def handleAcr0 (f : List String) : Verdict :=
   match f with
@@ -66,6 +109,7 @@ def handleAcr0 (f : List String) : Verdict :=
       let tags0 := shapeTags t ++ ["algo-" ++ algoStr algo] ++ tagIf missing "tip-missing" ++
         tagIf (keys.any fun k => !t.tipNames.contains k) "extra-map-entries"
       if outcome.startsWith "panic" then ⟨.oracle, tags0, "panic: " ++ outcome⟩ else
+      if tipRooted t then acrTipRooted t m algo outcome stepsS dumpAfter tags0 model else
       if outcome == "err" then
         if !missing then ⟨if rootOk t then .oracle else .tie, "err" :: tags0, "error although every tip has a state"⟩
         else match model with
@@ -124,9 +168,14 @@ def handleAcr0 (f : List String) : Verdict :=
             let alphaM := alphabet (m.map (·.2))
             let tvM := acrTipVec m alphaM
             let okRR := rrpaths.length != rr.length || (List.zip rrpaths rr).all fun (p, st) =>
-              okPath t p && ((runChar alphaM.length tvM algo (rerootPath t p)).1 : Int) == st
+              if p.getLast? == some 999999 then
+                -- rooted on the branch above the node at q: a node inserted there, the root moved onto it
+                let q := p.dropLast
+                okPath (subdivide t q) q && ((runChar alphaM.length tvM algo (rerootPath (subdivide t q) q)).1 : Int) == st
+              else okPath t p && ((runChar alphaM.length tvM algo (rerootPath t p)).1 : Int) == st
             if !okRR then ⟨.tie, tags, "model steps on the re-rooted tree differ"⟩
-            else ⟨.pass, tags ++ tagIf (rrpaths.length == rr.length && rr.length > 0) "hyp-okPath", ""⟩
+            else ⟨.pass, tags ++ tagIf (rrpaths.length == rr.length && rr.length > 0) "hyp-okPath" ++
+              tagIf (rrpaths.any fun p => p.getLast? == some 999999) "rooted-on-branch" ++ tagIf (rrpaths.length != rr.length) "rr-untied" ++ tagIf (!uniqueKeys) "map-unchecked", ""⟩
       | _, _ => bad "C12.acr outputs"
     | _, _, _, _, _, _, _, _ => bad "C12.acr fields"
   | _ => bad "C12.acr arity"
@@ -158,19 +207,21 @@ def handleAsr0 (prot : Bool) (f : List String) : Verdict :=
       let kk := if prot then 22 else 5
       let tvOf : Nat → String → Vec := fun j n => if prot then aaTipVec m j n else specAsrTipVec m j n
       let odd := !prot && hasNonIupac seqs
-      let missing := !((lookedUp t).all fun n => (lookup m n).isSome)
+      let tr := tipRooted t
+      let missing := !((if tr then t.tipNames else lookedUp t).all fun n => (lookup m n).isSome)
       let plain := seqs.all fun s => s.toList.all fun c => if prot then aaChars.contains c else isPlain c
       let tags0 := "asr" :: shapeTags t ++ ["algo-" ++ algoStr algo] ++ tagIf missing "tip-missing" ++
         tagIf plain "unambiguous-alignment" ++ tagIf (!plain) "iupac-ambiguity" ++ tagIf (len == 0) "empty-alignment" ++
         tagIf (seqs.any fun s => s.toList.contains '-') "gaps" ++ tagIf odd "non-iupac-char" ++ tagIf prot "protein" ++ tagIf (prot && seqs.any fun s => s.toList.contains 'X') "all-amino-X"
       if outcome.startsWith "panic" then ⟨.oracle, tags0, "panic: " ++ outcome⟩ else
       if outcome == "err" then
-        if !missing && algo != .none then ⟨if rootOk t then .oracle else .tie, "err" :: tags0, "error although every tip has a sequence"⟩
+        if !missing && algo != .none then ⟨if rootOk t || tr then .oracle else .tie, "err" :: tags0, "error although every tip has a sequence"⟩
+        else if tr then ⟨.pass, "err" :: "root-is-tip" :: tags0, ""⟩
         else match model with
           | none => ⟨.pass, "err" :: tags0, ""⟩
           | some _ => ⟨.tie, "err" :: tags0, "model accepts"⟩
       else
-      if missing then ⟨if rootOk t then .oracle else .tie, tags0, "a tip without sequence was accepted"⟩ else
+      if missing && !tr then ⟨if rootOk t then .oracle else .tie, tags0, "a tip without sequence was accepted"⟩ else
       match parseNatList stepsS, T.undump dumpAfter, (splitTerm ";" rrs).mapM parseNatList with
       | some steps, some ta, some rr =>
         let comments := nodeComments ta
@@ -180,16 +231,21 @@ def handleAsr0 (prot : Bool) (f : List String) : Verdict :=
           -- perNode : node → site → chars
           let okLen := perNode.all (·.length == len) && steps.length ≥ len
           if !okLen then ⟨.oracle, tags0, "wrong number of sites in the output"⟩ else
-          let siteSets (j : Nat) : List (List String) := perNode.map fun s => sortStrings (s.getD j [])
+          let siteSets0 (j : Nat) : List (List String) := perNode.map fun s => sortStrings (s.getD j [])
+          -- a tree rooted at a tip is, for the property, the same tree seen from the root's neighbour
+          let tO := if tr then rootAtNeighbour t else t
+          let siteSets (j : Nat) : List (List String) := if tr then fwdOrder (siteSets0 j) else siteSets0 j
+          let silentZero := tr && (steps.take len).all (· == 0) && (perNode.drop 1).all (·.all (· == ["*"])) && perNode.length ≥ 2
           let ambiguous := perNode.any (·.any (·.length > 1))
-          let leafF := leafFlags t
-          let nnames := t.nodeNames
+          let leafF := leafFlags tO
+          let nnames := tO.nodeNames
           let narrowed := algo == .acctran && (List.range len).any fun j => (List.range leafF.length).any fun i =>
             leafF.getD i false && ((siteSets j).getD i []).length < (members kk (tvOf j (nnames.getD i ""))).length
           let tags := tags0 ++ tagIf narrowed "acctran-ambiguous-tip-narrowed" ++
             tagIf ((steps.any (· ≥ 2)) && ambiguous) "nontrivial" ++ tagIf (rr.length > 0) "rerooted" ++
             tagIf (len ≥ 2) "multi-site" ++ tagIf (!acrCols.isEmpty) "acr-columns"
-          if !(rootOk t) then
+          if tr && missing then ⟨.oracle, "root-is-tip" :: tags, (if silentZero then rootTipClass ++ " — " else "") ++ "a tip without sequence was accepted"⟩ else
+          if !(rootOk t) && !tr then
             match model with
             | some mo => if mo.steps.take len == steps.take len && (List.range len).all (fun j => (mo.sets.getD j []).map sortStrings == siteSets j)
                          then ⟨.pass, "skip-root" :: tags, ""⟩ else ⟨.tie, "skip-root" :: tags, "model differs"⟩
@@ -199,7 +255,7 @@ def handleAsr0 (prot : Bool) (f : List String) : Verdict :=
           -- per site: problems nothing explains / the site is entirely explained by known finding F59
           let perSite : List (List String × Bool) := (List.range len).map fun j =>
             let rep : Report := ⟨steps.getD j 0, (siteSets j).map fun s => s.map (idxOf univ)⟩
-            let pI := reportProblemsK k (tvOf j) t (algo == .downpass) true rep
+            let pI := reportProblemsK k (tvOf j) tO (algo == .downpass) true rep
             -- the tips whose character at this site has no entry in align.IupacCode (nucleotides only)
             let oddTips : List Nat := if prot then [] else (List.range leafF.length).filter fun i =>
               leafF.getD i false && (match lookup m (nnames.getD i "") with
@@ -211,7 +267,7 @@ def handleAsr0 (prot : Bool) (f : List String) : Verdict :=
               -- F59 region: the site is judged with the CODE's reading of the odd characters (no state); what is left
               -- must be exactly those tips (written `*`)
               let repC : Report := ⟨steps.getD j 0, (siteSets j).map fun s => s.map (idxOf asrAlphabet)⟩
-              let pC := reportProblemsK 6 (codeAsrTipVec m j) t (algo == .downpass) true repC
+              let pC := reportProblemsK 6 (codeAsrTipVec m j) tO (algo == .downpass) true repC
               let un := pC.filter fun p =>
                 !(match p.kind with
                   | .tip i => oddTips.contains i
@@ -230,16 +286,17 @@ def handleAsr0 (prot : Bool) (f : List String) : Verdict :=
               let asteps := (col.headD "").toNat?.getD 0
               let asets := (col.drop 1).map (splitSet "|")
               if asteps != steps.getD j 0 then ["site " ++ toString j ++ ": ASR steps differ from ACR steps"]
-              else if asets != siteSets j then ["site " ++ toString j ++ ": ASR states differ from ACR states"] else []
+              else if asets != siteSets0 j then ["site " ++ toString j ++ ": ASR states differ from ACR states"] else []
           let all := probs ++ probsRR ++ probsAcr
-          if !all.isEmpty then ⟨.oracle, tags, showProblems all⟩ else
+          let tags := tagIf tr "root-is-tip" ++ tags
+          if !all.isEmpty then ⟨.oracle, tags, (if silentZero then rootTipClass ++ " — " else "") ++ showProblems all⟩ else
           -- only failures that a recorded finding explains completely: site level and kind level
           if usedF59 then ⟨.oracle, "known-F59" :: tags, "class=AsrNonIupacCharEmptySet a character without IupacCode entry at a tip: one more step at that site, tip written *"⟩ else
           match model with
           | none => ⟨.tie, tags, "model rejects"⟩
           | some mo =>
             if mo.steps.take len != steps.take len then ⟨.tie, tags, "model steps " ++ toString mo.steps⟩
-            else if !((List.range len).all fun j => (mo.sets.getD j []).map sortStrings == siteSets j) then ⟨.tie, tags, "model sets differ"⟩
+            else if !((List.range len).all fun j => (mo.sets.getD j []).map sortStrings == siteSets0 j) then ⟨.tie, tags, "model sets differ"⟩
             else ⟨.pass, tags, ""⟩
       | _, _, _ => bad "C12.asr outputs"
     | _, _, _, _, _ => bad "C12.asr fields"
@@ -256,11 +313,17 @@ def handleAcrR (f : List String) : Verdict :=
     | some t, some keys, some vals, some algo, some stream =>
       let m := zipMap keys vals
       let tags0 := "random-resolve" :: shapeTags t ++ ["algo-" ++ algoStr algo]
-      if !(rootOk t) then ⟨.pass, "skip-root" :: tags0, ""⟩ else
-      if outcome != "ok" then ⟨.oracle, tags0, "random resolution failed: " ++ outcome⟩ else
+      let tr := tipRooted t
+      let tO := if tr then rootAtNeighbour t else t
+      let tags0 := tagIf tr "root-is-tip" ++ tagIf (!(rootOk t) && !tr) "skip-root" ++ tags0
+      if outcome != "ok" then ⟨if rootOk tO then .oracle else .tie, tags0, "random resolution failed: " ++ outcome⟩ else
       match stepsS.toNat?, T.undump dumpAfter, (if nextS == "" then some none else nextS.toNat?.map some) with
       | some steps, some ta, some next =>
-        let isets : List (List String) := (nodeComments ta).map fun c => splitSet "|" (c.headD "")
+        let isets0 : List (List String) := (nodeComments ta).map fun c => splitSet "|" (c.headD "")
+        let isets := if tr then fwdOrder isets0 else isets0
+        let silentZero := tr && steps == 0 && (isets0.drop 1).all (· == ["*"]) && isets0.length ≥ 2
+        let tOrig := t
+        let t := tO
         let tipStates := (leavesL t.kids).filterMap (lookup m)
         let alpha := dedup tipStates
         let k := alpha.length
@@ -274,15 +337,15 @@ def handleAcrR (f : List String) : Verdict :=
           | none => 0
         let tags := tags0 ++ ["states-" ++ toString k] ++ tagIf (ndraws ≥ 1) "nontrivial" ++ tagIf (ndraws ≥ 3) "many-draws" ++
           tagIf (tipsOk k tv t) "hyp-tipsOk"
-        let probs := reportProblemsR k tv t false (algo != .none) true rep
+        let probs := if rootOk t then reportProblemsR k tv t false (algo != .none) true rep else []
         let unresolved := algo != .none && (List.zip isets (leafFlags t)).any fun (st, lf) => !lf && st.length != 1
-        if !probs.isEmpty then ⟨.oracle, tags, showProblems probs⟩ else
+        if !probs.isEmpty then ⟨.oracle, tags, (if silentZero then rootTipClass ++ " — " else "") ++ showProblems probs⟩ else
         if unresolved then ⟨.tie, tags, "an inner node is still ambiguous after random resolution"⟩ else
-        match acrR t m algo stream with
+        match acrR tOrig m algo stream with
         | none => ⟨.tie, tags, "model rejects"⟩
         | some mo =>
           if mo.steps != steps then ⟨.tie, tags, "model steps " ++ toString mo.steps⟩
-          else if mo.sets.map sortStrings != isets then ⟨.tie, tags, "model draws other states"⟩
+          else if mo.sets.map sortStrings != isets0 then ⟨.tie, tags, "model draws other states"⟩
           else if next.isSome && mo.next != next then ⟨.tie, tags, "model consumes another number of draws"⟩
           else ⟨.pass, tags, ""⟩
       | _, _, _ => bad "C12.acrr outputs"
@@ -406,21 +469,26 @@ def handleAsrR (f : List String) : Verdict :=
       let plain := seqs.all fun s => s.toList.all isPlain
       let tags0 := "random-resolve" :: "asr" :: shapeTags t ++ ["algo-" ++ algoStr algo] ++ tagIf (len ≥ 2) "multi-site" ++
         tagIf (!plain) "iupac-ambiguity"
-      if !(rootOk t) then ⟨.pass, "skip-root" :: tags0, ""⟩ else
-      if outcome != "ok" then ⟨.oracle, tags0, "random resolution failed: " ++ outcome⟩ else
+      let tr := tipRooted t
+      let tO := if tr then rootAtNeighbour t else t
+      let tags0 := tagIf tr "root-is-tip" ++ tagIf (!(rootOk t) && !tr) "skip-root" ++ tags0
+      if outcome != "ok" then ⟨if rootOk tO then .oracle else .tie, tags0, "random resolution failed: " ++ outcome⟩ else
       match parseNatList stepsS, T.undump dumpAfter, (if nextS == "" then some none else nextS.toNat?.map some) with
       | some steps, some ta, some next =>
         match (nodeComments ta).mapM (fun c => parseSeqSets (c.getLastD "").toList none []) with
         | none => bad "C12.asrr comment"
         | some perNode =>
           if !(perNode.all (·.length == len) && steps.length ≥ len) then ⟨.oracle, tags0, "wrong number of sites in the output"⟩ else
-          let siteSets (j : Nat) : List (List String) := perNode.map fun s => sortStrings (s.getD j [])
-          let probs := (List.range len).flatMap fun j =>
+          let siteSets (j : Nat) : List (List String) :=
+            let l := perNode.map fun s => sortStrings (s.getD j [])
+            if tr then fwdOrder l else l
+          let silentZero := tr && (steps.take len).all (· == 0) && (perNode.drop 1).all (·.all (· == ["*"])) && perNode.length ≥ 2
+          let probs := if !(rootOk tO) then [] else (List.range len).flatMap fun j =>
             let rep : Report := ⟨steps.getD j 0, (siteSets j).map fun s => s.map (idxOf asrUniverse)⟩
-            (reportProblemsR 5 (specAsrTipVec m j) t false true true rep).map fun p =>
+            (reportProblemsR 5 (specAsrTipVec m j) tO false true true rep).map fun p =>
               "site " ++ toString j ++ ": " ++ p
           let tags := tags0 ++ tagIf (steps.any (· ≥ 2)) "nontrivial"
-          if !probs.isEmpty then ⟨.oracle, tags, showProblems probs⟩ else
+          if !probs.isEmpty then ⟨.oracle, tags, (if silentZero then rootTipClass ++ " — " else "") ++ showProblems probs⟩ else
           match asrR t m len algo stream with
           | none => ⟨.tie, tags, "model rejects"⟩
           | some mo =>
